@@ -33,6 +33,9 @@ VERIFICATION_FAILURES = (
     "constructed value may fail to meet its declared type invariant",
     "argument bounds not satisfied",
     "arithmetic",
+    "unable to prove post-condition of closure",
+    "unable to prove pre-condition of closure",
+    "closure",
 )
 RESOURCE = ("rlimit", "resource limit", "timed out", "timeout")
 
